@@ -100,6 +100,29 @@ def tensor_attr(it: Any, v: TV, attr: str, node: Any) -> Any:
 
 def obj_attr(it: Any, o: Obj, attr: str, node: Any) -> Any:
     A = _A()
+    if "_modules" in o.attrs and attr in ("children", "named_children", "named_parameters", "parameters", "modules", "named_modules", "__len__"):
+        from . import nnmodel
+
+        def cfn(it2, a, k, nd, o=o, attr=attr):
+            if attr == "children":
+                return nnmodel.children(o)
+            if attr == "named_children":
+                seen, out = [], []
+                for k_, m in o.attrs["_modules"].items():
+                    if not any(m is x for x in seen):
+                        seen.append(m)
+                        out.append((k_, m))
+                return out
+            if attr == "named_parameters":
+                return nnmodel.named_parameters(o)
+            if attr == "parameters":
+                return [p for _n, p in nnmodel.named_parameters(o)]
+            if attr == "__len__":
+                return len(o.attrs["_modules"])
+            mods = [("", o)] + [(k_, m) for k_, m in o.attrs["_modules"].items()]
+            return mods if attr == "named_modules" else [m for _n, m in mods]
+
+        return A._Builtin(f"Module.{attr}", cfn)
     # abstract nn.Module: children / parameters enumerated from the object's own attributes
     if "_children" in o.attrs and attr in ("named_children", "named_modules", "children", "modules"):
         def walk_mods(m: Obj, prefix: str, deep: bool):
